@@ -26,7 +26,7 @@ NOISES = ["spam", "amplitude", "detuning", "doppler", "register", "relaxation", 
 
 def gen_cases(tier, seed):
     rng = np.random.default_rng(seed)
-    n_cases = 48 if tier == "quick" else 600
+    n_cases = 48 if tier == "quick" else 288
     return [{"seed": int(rng.integers(1 << 30)), "backend": "sv" if i % 2 else "mps", "noise": NOISES[(i // 2) % len(NOISES)],
              "ntraj": int(rng.choice([1, 2, 3, 5, 8, 13, 21, 50])) if tier == "thorough" else int(rng.choice([1, 2, 3, 5, 8, 13, 33, 41]))} for i in range(n_cases)]
 
